@@ -58,8 +58,10 @@ def main(tier):
     compared = 0
     samples = []
     try:
+      for optimize in (False, True):
+        otag = "-O" if optimize else ""
         # ---------------- python
-        r = genrun.run_generator("python", root, tag="py")
+        r = genrun.run_generator("python", root, tag="py" + otag, optimize=optimize)
         if r.rc != 0:
             rep.fail("python plugin fails on the committed model", {"rc": r.rc, "tail": r.out[-800:]})
         else:
@@ -94,7 +96,7 @@ def main(tier):
                 rep.fail("types.py: statement order differs", {})
             samples.append({"file": "types.py", "statements": len(a), "fs_events": len(r.fs)})
         # ---------------- rust
-        r = genrun.run_generator("rust", root, tag="rs")
+        r = genrun.run_generator("rust", root, tag="rs" + otag, optimize=optimize)
         if r.rc != 0:
             rep.fail("rust plugin fails on the committed model", {"rc": r.rc, "tail": r.out[-800:]})
         else:
@@ -107,7 +109,19 @@ def main(tier):
             if not os.path.exists(RUSTFMT):
                 rep.inconc("rustfmt not available: Rust half undecided")
             else:
-                p = subprocess.run([RUSTFMT, "--edition", "2021", gen_rs], capture_output=True, text=True, timeout=300)
+                # the build formats the file where it lives: a rustfmt configuration anywhere between the
+                # crate's src directory and the repository root applies to it, so it applies here too
+                cfg = None
+                dcur = os.path.join(common.REPO, "packages", "rust", "lsprotocol", "src")
+                while True:
+                    for name in ("rustfmt.toml", ".rustfmt.toml"):
+                        if os.path.exists(os.path.join(dcur, name)):
+                            cfg = cfg or os.path.join(dcur, name)
+                    if os.path.abspath(dcur) == os.path.abspath(common.REPO) or os.path.dirname(dcur) == dcur:
+                        break
+                    dcur = os.path.dirname(dcur)
+                cmd = [RUSTFMT, "--edition", "2021"] + (["--config-path", cfg] if cfg else []) + [gen_rs]
+                p = subprocess.run(cmd, capture_output=True, text=True, timeout=300)
                 if p.returncode != 0:
                     rep.fail("generated lib.rs does not parse (rustfmt)", {"stderr": p.stderr[-600:]})
                 else:
